@@ -4,4 +4,5 @@ P="$1"; C="$2"; T="${3:-quick}"
 git -C /repo apply "$P" || { echo "patch does not apply"; exit 3; }
 /verif/check "$C" --tier "$T"; rc=$?
 git -C /repo checkout -- .
+PYTHONPATH=/repo PYTHONHASHSEED=0 /venv/bin/python /verif/translator/gen_tables.py >/dev/null
 echo "exit=$rc"
